@@ -128,6 +128,7 @@ func runHarnessOpt(ld *Loaded, name string, spec *HarnessSpec, tier string, debu
 		ex.ConcN = concN
 		if spec.Mode == "conc" {
 			ex.Mode = "conc"
+			ex.Preempt = params["preemptions"]
 		}
 		if p := os.Getenv("GOSMT_SMTLOG"); p != "" {
 			ex.S.SetLog(p + "." + name + ".smt2")
